@@ -219,6 +219,8 @@ def run_scenario(spec: dict) -> dict:
 
     orig_uptime = control_mod.ControlThread.is_max_uptime_reached
     orig_ctl_start = control_mod.ControlThread.on_start
+    # where the control thread is, for the delivery of keyboard interrupts at arbitrary operations
+    ctl_at = {"loop": False, "pool": False, "save": False}
 
     def logged_uptime(self):
         raw = sched.now
@@ -230,6 +232,7 @@ def run_scenario(spec: dict) -> dict:
     def logged_ctl_start(self):
         orig_ctl_start(self)
         timeline.append(["start", sched.now, len(sched.trace)])
+        ctl_at["loop"] = True
 
     control_mod.ControlThread.is_max_uptime_reached = property(logged_uptime)
     control_mod.ControlThread.on_start = logged_ctl_start
@@ -243,7 +246,11 @@ def run_scenario(spec: dict) -> dict:
         if ("save", k) in faults:
             S.mark("save_raise")
             raise Injected(f"save#{k}")
-        p = orig_save(self)
+        ctl_at["save"] = True
+        try:
+            p = orig_save(self)
+        finally:
+            ctl_at["save"] = False
         info = {}
         try:  # read the written state back (no yield points here): what is in the buffer, the agent's counter, the clock
             import pickle
@@ -414,6 +421,34 @@ def run_scenario(spec: dict) -> dict:
         ct.join()
 
     orig_shutdown, orig_ctl_finally = control_mod.ControlThread.shutdown, control_mod.ControlThread.on_finally
+    orig_wait_all = tcm.ThreadStatusesMonitor.wait_for_all_threads_pause
+    if spec.get("interrupt_at_op") is not None:
+        # KeyboardInterrupt delivered to the control (= main) thread before its n-th synchronisation operation inside the
+        # control loop - anywhere but in the worker-pool section of try_pause, inside a state save and in the finally clause
+        ia = {"n": 0, "done": False}
+
+        def waiting_all(self, *a, **k):
+            ctl_at["pool"] = True
+            try:
+                return orig_wait_all(self, *a, **k)
+            finally:
+                ctl_at["pool"] = False
+
+        def finally_seen(self):
+            ctl_at["loop"] = False
+            return orig_ctl_finally(self)
+        tcm.ThreadStatusesMonitor.wait_for_all_threads_pause = waiting_all
+        control_mod.ControlThread.on_finally = finally_seen
+
+        def pre_op(me):
+            if me.name != "main" or ia["done"] or not ctl_at["loop"] or ctl_at["pool"] or ctl_at["save"]:
+                return None
+            ia["n"] += 1
+            if ia["n"] == spec["interrupt_at_op"]:
+                ia["done"] = True
+                return KeyboardInterrupt()
+            return None
+        sched.pre_op = pre_op
     if spec.get("interrupt_in_shutdown") is not None:
         # KeyboardInterrupt delivered to the control (= main) thread while a shutdown requested by the control tick (a
         # command, the uptime limit, a failed thread) is in progress: before its k-th synchronisation operation
@@ -469,6 +504,7 @@ def run_scenario(spec: dict) -> dict:
         control_mod.ControlThread.is_max_uptime_reached = orig_uptime
         control_mod.ControlThread.on_start = orig_ctl_start
         control_mod.ControlThread.shutdown, control_mod.ControlThread.on_finally = orig_shutdown, orig_ctl_finally
+        tcm.ThreadStatusesMonitor.wait_for_all_threads_pause = orig_wait_all
         tcm.ThreadController.__init__, tcm.ThreadStatus.__init__ = orig_tc_init, orig_ts_init
         PThread.LOOP_DELAY = old_delay
         control_mod.WebApiServer = WebApiServer
